@@ -4,7 +4,7 @@ Import ListNotations.
 Open Scope Z_scope.
 
 Definition apply_seek_sites : list (Z -> Z -> Z -> Z -> Z) :=
-  [fun cached orig newoff len => cached; fun cached orig newoff len => orig; fun cached orig newoff len => newoff; fun cached orig newoff len => 0; fun cached orig newoff len => (len + 0); fun cached orig newoff len => 0; fun cached orig newoff len => (len + 0)].
+  [fun cached orig newoff len => orig; fun cached orig newoff len => newoff; fun cached orig newoff len => 0; fun cached orig newoff len => (len + 0); fun cached orig newoff len => 0; fun cached orig newoff len => (len + 0)].
 
 Definition getitem_tfld_args : list (Z -> Z * option Z * bool) :=
   [fun offset => (offset, None, false); fun offset => ((offset + 1), None, true)].
@@ -18,4 +18,27 @@ Definition run_shortcut_cmp (d since : Z) : bool :=
   (d >=? since).
 Definition run_bisect_fn : string := "bisect_left".
 Definition run_returns_line_info_start : bool := true.
+
+Definition logline_init_fields : list (string * string) :=
+  [("_file", "file"); ("_constraint", "constraint"); ("_line_start_lf", "line_start_lf"); ("_line_end_lf", "line_end_lf")]%string.
+Definition logline_start_lf_attr : string := "_line_start_lf"%string.
+Definition logline_end_lf_attr : string := "_line_end_lf"%string.
+Definition logline_len (end_offset start_offset : Z) : Z :=
+  ((end_offset - start_offset) + 1).
+Definition read_line_window (start_offset max_len : Z) : Z * Z :=
+  (start_offset, max_len).
+Definition logline_date_read_len (W end_offset start_offset : Z) : Z :=
+  W.
+Definition logline_text_read_len (len_self : Z) : Z := len_self.
+
+Definition search_state_init_fields : list (string * string) :=
+  [("_status", "status"); ("_offset", "offset")]%string.
+Definition search_state_status_attr : string := "_status"%string.
+Definition search_state_offset_attr : string := "_offset"%string.
+Definition saved_position_after_exit (tell_at_entry : Z) : Z :=
+  tell_at_entry.
+Definition seeker_init_found_any_date : bool := false.
+Definition seeker_init_line_info_is_none : bool := true.
+Definition seeker_length_seek : Z * Z := (0, 2).
+Definition seeker_len (length : Z) : Z := length.
 
